@@ -8,8 +8,8 @@ PROP = {'engine': 'pn',
                   'MUSCLE_TIME_NEVER is regenerated from /repo headers on every run (tools/extract_consts.cpp)',
                   'node behaviour is a script (requested times + re-entrant actions per callback); the simulated clock is an argument of each sweep'],
  'assumptions': ['sweep theorems are about runs the model completes (explicit fuel; out of fuel = no statement)',
-                 'completeness / re-asking theorems assume no re-entrant invalidate/attach of a node whose own GetPulseTimeAux is in progress (open finding '
-                 'C20-lost-invalidate)',
+                 'the full structural invariant is proved for the public operations and the pulse sweep, not yet for the GetPulseTimeAux sweep (see '
+                 'inv_preserved_partial)',
                  'now < MUSCLE_TIME_NEVER for "fires iff due"; no attachment that closes a cycle (the harness refuses it)'],
  'rule': 'random histories over a pool of 16 scripted PulseNodes (attach/detach/destroy/invalidate/change request, scripts of re-entrant actions for '
          'GetPulseTime and Pulse callbacks, then for each event-loop cycle: CallGetPulseTimeAux on every root, a simulated wait, CallPulseAux on every root); '
@@ -26,7 +26,8 @@ TEXT = {'design_ref': 'DESIGN.md section 4, C20',
          'minimum of the requested times of a settled tree, fired set = due set for a settled tree).  The model is tied to the C++ code by running both on the '
          'same random histories (attach/detach/destroy/invalidate, scripts with re-entrant actions, gpt/pulse sweeps): returned minimum and the full callback '
          'log must be identical; a brute-force oracle on the real class checks min-of-requests, fired = due, once, never early, asked again.',
- 'note': 'Sweep theorems are partial-correctness statements over fuel-bounded runs; theorems named _partial state what is missing.  Open finding '
-         'C20-lost-invalidate (invalidate of a node whose GetPulseTimeAux is in progress is lost) is excluded by hypothesis and kept as '
-         'corpus/C20/pn-inprogress-invalidate.ops.  Trusted: Lean kernel, the statement file, the correspondence harness (sampling), MUSCLE_TIME_NEVER '
+ 'note': 'Sweep theorems are partial-correctness statements over fuel-bounded runs; theorems named _partial state what is missing.  Finding '
+         'C20-lost-invalidate (invalidate of a node whose GetPulseTimeAux is in progress was lost) is repaired in /repo; the model mirrors the repaired code '
+         '(second pass, aggregate 0 for a node that is invalid even then), theorems lost_invalidate_reasked/_bounded/_live state it, regression input '
+         'corpus/C20/pn-regress-inprogress-invalidate.ops.  Trusted: Lean kernel, the statement file, the correspondence harness (sampling), MUSCLE_TIME_NEVER '
          'regenerated from the headers.'}
